@@ -31,12 +31,14 @@ CFG = dict(
     exhaustive_domain={"quick": "150 histories x 25 (image type, allocator flavour, language mode) configurations; every allocation point of each history",
                        "thorough": "2000 histories x 25 configurations, up to 40 operations"},
     types=["image<rgb8_pixel_t,false,A>", "image<rgb8_pixel_t,true,A>", "image<gray16_pixel_t,false,A>", "bit_aligned_image3_type<1,2,3,rgb_layout_t,A>",
-           "image<telem,false,A>", "A in {led::alloc always-equal, propagating, sticky; std::pmr::polymorphic_allocator}"],
+           "image<telem,false,A>", "any_image<rgb8, gray16, rgb8 planar over the ledger allocator>", "A in {led::alloc always-equal, propagating, sticky; std::pmr::polymorphic_allocator}"],
     assumptions=["swap is only generated between images whose allocators are equal or propagate on swap (anything else is undefined for any container)",
                  "recreate(..., alloc_in) gets a different allocator only where image::swap exchanges allocators (C++14 mode or propagate_on_container_swap)",
                  "after an exception or a move the source/target state is only required to be valid: it is re-read and becomes the model",
                  "contents after a plain recreate are unspecified and are overwritten by the harness"],
-    tus=[tu(_name(i, f, s), SRC, "asan", std=s, extra=NONULL + ["-DIMG=%d" % i, "-DFLAV=%d" % f]) for (i, f, s) in CONF],
+    tus=[tu(_name(i, f, s), SRC, "asan", std=s, extra=NONULL + ["-DIMG=%d" % i, "-DFLAV=%d" % f]) for (i, f, s) in CONF]
+        + [tu("c10_any_image", "harness/c10_any_image.cpp", "asan", extra=NONULL)],
     runs=[run(_name(i, f, s), shards={"quick": 1, "thorough": 4}, leaks=True,
-              min_cases={"quick": 150, "thorough": 2000}) for (i, f, s) in CONF],
+              min_cases={"quick": 150, "thorough": 2000}) for (i, f, s) in CONF]
+        + [run("c10_any_image", shards={"quick": 2, "thorough": 8}, leaks=True, min_cases={"quick": 400, "thorough": 4000})],
 )
